@@ -2,6 +2,7 @@ mod c10;
 mod c14;
 mod c15;
 mod c16;
+mod c20;
 mod core;
 mod reflex;
 mod refpos;
@@ -18,9 +19,10 @@ static C10: c10::C10 = c10::C10;
 static C14: c14::C14 = c14::C14;
 static C15: c15::C15 = c15::C15;
 static C16: c16::C16 = c16::C16;
+static C20: c20::C20 = c20::C20;
 
 fn registry() -> Vec<&'static dyn Check> {
-    vec![&C01, &C02, &C10, &C14, &C15, &C16]
+    vec![&C01, &C02, &C10, &C14, &C15, &C16, &C20]
 }
 
 fn usage() -> ! {
